@@ -411,6 +411,7 @@ pub fn dump_and_exit(code: i32) -> ! {
         }
         std::fs::write(f, s).unwrap();
     }
+    rt::EXITING.store(true, std::sync::atomic::Ordering::SeqCst);
     std::process::exit(code);
 }
 
